@@ -30,7 +30,7 @@ class RawTok(Model):
         return hash(repr(self.origin))
 
     def __getitem__(self, idx):
-        return RawTok(("idx", self.origin, key_of(idx)), idx_shape(self.shape, idx))
+        return RawTok(("idx", self.origin, key_of(idx, self.shape)), idx_shape(self.shape, idx))
 
     def copy(self):
         return RawTok(("copy", self.origin), self.shape, getattr(self, "dtype", None))
@@ -121,11 +121,20 @@ def unintern(o):
     return o
 
 
-def key_of(idx):
+def slice_key(shape, idx):
+    """what a slice selects: for an axis of known length the tuple of selected rows (so that slice(None, None, -1), slice(n-1, None, -1)
+    and any other spelling of the same selection are one key), otherwise the slice's own fields"""
+    n = shape[0] if shape else None
+    if isinstance(n, int) and not isinstance(n, bool) and all(x is None or (isinstance(x, int) and not isinstance(x, bool)) for x in (idx.start, idx.stop, idx.step)):
+        return ("rows", tuple(range(n)[idx]))
+    return ("slice", idx.start, idx.stop, idx.step)
+
+
+def key_of(idx, shape=None):
     if isinstance(idx, (RawTok, ArrTok)):
         return intern(idx.origin)
     if isinstance(idx, slice):
-        return ("slice", idx.start, idx.stop, idx.step)
+        return slice_key(shape, idx) if shape is not None else ("slice", idx.start, idx.stop, idx.step)
     if hasattr(idx, "origin") and not isinstance(idx, PyObj):
         return intern(idx.origin)
     return idx
@@ -134,6 +143,10 @@ def key_of(idx):
 def idx_shape(shape, idx):
     if isinstance(idx, int):
         return shape[1:]
+    if isinstance(idx, slice) and shape:
+        k = slice_key(shape, idx)
+        if k[0] == "rows":
+            return (len(k[1]),) + tuple(shape[1:])
     if isinstance(idx, (RawTok, ArrTok)):
         return tuple(idx.shape) + tuple(shape[1:])
     return ("sel",) + tuple(shape[1:])
@@ -144,6 +157,11 @@ class UnitTok(Model):
 
     def __init__(self, name):
         self.name = name
+
+    def __rmul__(self, k):
+        """k * unit -> a quantity token (defined here so that it does not depend on which fold modules were imported)"""
+        from .map_folds import QT
+        return QT("unit:%s" % (self.name,), self)
 
     def __eq__(self, o):
         return isinstance(o, UnitTok) and o.name == self.name
@@ -255,7 +273,7 @@ class ArrTok(Model):
     def __getitem__(self, idx):
         if isinstance(idx, PyObj):
             raise Raised("ValueError", None, "Cannot slice using a Vector")
-        return ArrTok(("idx", self.origin, key_of(idx)), self.unit, idx_shape(self.shape, idx), self.name)
+        return ArrTok(("idx", self.origin, key_of(idx, self.shape)), self.unit, idx_shape(self.shape, idx), self.name)
 
     def __len__(self):
         return self.shape[0] if self.shape else 0
